@@ -142,6 +142,14 @@ fn sizes() -> Vec<SVal> {
             v.push(SVal::Struct("S".into(), vec![("f".into(), SVal::Seq(vec![SVal::U8(1), SVal::Fail(msg)], true))]));
         }
     }
+    // variants (and types) whose name is the empty string or a blank: a name like any other
+    for name in ["", " "] {
+        v.push(SVal::UnitVariant(name.into(), 0, name.into()));
+        v.push(SVal::NewtypeVariant("E".into(), 0, name.into(), Box::new(SVal::Tuple(vec![SVal::U8(1), SVal::U8(2)]))));
+        v.push(SVal::TupleVariant("E".into(), 1, name.into(), vec![SVal::U8(1), SVal::U8(2)]));
+        v.push(SVal::StructVariant(name.into(), 2, name.into(), vec![("f".into(), SVal::U8(1))]));
+        v.push(SVal::Map(vec![(SVal::Str(name.into()), SVal::TupleVariant("E".into(), 1, name.into(), vec![SVal::Unit]))], true));
+    }
     // field names that differ only by a raw-identifier prefix, side by side
     v.push(SVal::Struct("S".into(), vec![("r#type".into(), SVal::U8(1)), ("type".into(), SVal::U8(2)), ("width".into(), SVal::U8(3))]));
     v.push(SVal::StructVariant("E".into(), 0, "V".into(), vec![("type".into(), SVal::U8(2)), ("r#type".into(), SVal::U8(1)), ("r#r#x".into(), SVal::U8(3))]));
